@@ -356,7 +356,7 @@ def run_near_angles(ctx: Ctx, case: dict) -> list[str]:
     for k, (th, gate) in enumerate(zip(ths, gates)):
         u = np.asarray(gate.U_full)
         want = rot_matrix_float(g, th)
-        if u.shape != want.shape or np.abs(u - want).max() > TOL:
+        if u.shape != want.shape or np.abs(u - want).max() > 1e-11:  # (entries of a 2x2 rotation: exact to rounding)
             probs.append(f"oracle: {g}({th!r}) built as number {k + 1} of {len(ths)} gates with nearby angles "
                          f"{ths} does not implement its own angle (max deviation {np.abs(u - want).max():.3e})")
             break
@@ -366,8 +366,12 @@ def run_near_angles(ctx: Ctx, case: dict) -> list[str]:
 def gen_near_angles(rng) -> dict:
     g = rng.choice(ROT)
     base = rng.choice([0.0, 0.3, 1.0, math.pi / 2, math.pi, -2.1, 2.5, 1e-4, 0.1234, 6.0])
-    if rng.random() < 0.5:
+    r = rng.random()
+    if r < 0.4:
         base = rng.uniform(-7, 7)
+    elif r < 0.6:
+        # angles whose sine or cosine is tiny but not zero (1e-8 and below: amplitudes that are not "noise")
+        base = rng.choice([0.0, math.pi, 2 * math.pi, -math.pi, math.pi / 2]) + rng.choice([1, -1]) * rng.choice([1.5e-8, 1e-8, 4e-9, 2e-8, 3e-7])
     deltas = [rng.choice([1e-4, 3e-4, 4.9e-4, -2e-4, 1e-6, 1e-9, 5e-3, 0.0, 2 * math.pi, -2 * math.pi, 1e-2])
               for _ in range(rng.randint(1, 3))]
     ths = [base] + [base + d for d in deltas]
@@ -558,6 +562,15 @@ def run_host(ctx: Ctx, case: dict) -> list[str]:
                 m_tot, sq_tot = m @ m_tot, sq_tot * sq
             target.add(block, 0, group=step["group"])
             return m_tot, sq_tot
+        if "bad_add" in step:
+            # an add() the host refuses (the gate does not fit at that qubit), caught by the client, who carries on:
+            # a refused call leaves the host as it was
+            gate = build_impl(step["bad_add"])
+            try:
+                target.add(gate, 2 * step["q"], group=step["group"])
+            except Exception:  # noqa: BLE001
+                pass
+            return np.eye(2 ** nq, dtype=complex), Fraction(1)
         if "swap" in step:
             a, b = step["swap"]
             target.add(qubit.SWAP((2 * a, 2 * a + 1), (2 * b, 2 * b + 1)), 0, group=step["group"])
@@ -624,7 +637,7 @@ def run_host(ctx: Ctx, case: dict) -> list[str]:
                      f"common scalar times the ordered product of the named gates (max residual {resid:.3e})")
     if abs(abs(k) ** 2 - float(want_sq)) > TOL:
         probs.append(f"oracle: host: {prog}: |scalar|^2 = {abs(k) ** 2:.12f}, expected {want_sq}")
-    flat = [x for st in case["gates"] for x in (st["sub"] if "sub" in st else [st])]
+    flat = [x for st in case["gates"] for x in (st["sub"] if "sub" in st else [st]) if "bad_add" not in x]
     has_ps = any(st.get("gate_case", {}).get("gate") in ("CZ", "CNOT") for st in flat)
     if leak > TOL and not has_ps:
         probs.append(f"oracle: host: {prog}: accepted output outside the qubit subspace has amplitude {leak:.3e}")
@@ -660,6 +673,12 @@ def gen_host(rng) -> dict:
         gates.insert(rng.randint(0, len(gates)), {"gate_case": gc, "q": rng.randint(0, nq - 2), "group": rng.random() < 0.6})
     # a gate on the highest qubit last: it sits above every ancilla created before
     gates.append({"gate_case": gen_rotation(rng), "q": nq - 1, "group": rng.random() < 0.5})
+    # refused additions (a two-qubit gate on the last qubit / any gate beyond it) between the accepted ones
+    for _ in range(rng.choice([0, 0, 1, 1, 2])):
+        g = rng.choice(["CZ_Heralded", "CNOT_Heralded", "CNOT", "CZ", "H"])
+        gc = {"gate": g} if g in ("CZ_Heralded", "CZ", "H") else {"gate": g, "target": rng.randint(0, 1)}
+        q = nq if g == "H" else rng.choice([nq - 1, nq])
+        gates.insert(rng.randint(1, len(gates)), {"bad_add": gc, "q": q, "group": rng.random() < 0.5})
     # qubit SWAPs around the gates
     for _ in range(rng.choice([0, 0, 1, 2])):
         a, b = rng.sample(range(nq), 2)
@@ -677,6 +696,17 @@ def gen_host(rng) -> dict:
 
 
 HOST_CORPUS = [
+    # a refused addition between two accepted ones, on a host that already owns ancillas
+    {"stream": "host", "nq": 2, "gates": [
+        {"gate_case": {"gate": "CZ_Heralded"}, "q": 0, "group": True},
+        {"bad_add": {"gate": "CNOT", "target": 1}, "q": 1, "group": True},
+        {"gate_case": {"gate": "CNOT", "target": 1}, "q": 0, "group": True}]},
+    {"stream": "host", "nq": 3, "gates": [
+        {"gate_case": {"gate": "CNOT_Heralded", "target": 0}, "q": 1, "group": True},
+        {"bad_add": {"gate": "CZ_Heralded"}, "q": 2, "group": False},
+        {"bad_add": {"gate": "H"}, "q": 3, "group": False},
+        {"gate_case": {"gate": "CZ_Heralded"}, "q": 0, "group": True},
+        {"gate_case": {"gate": "H"}, "q": 2, "group": False}]},
     # a block holding two heralded gates created upper gate first, added to a host that already holds a heralded gate
     {"stream": "host", "nq": 4, "gates": [
         {"gate_case": {"gate": "CZ_Heralded"}, "q": 2, "group": True},
